@@ -116,7 +116,9 @@ func runC12(p *Prog, r *Report) {
 				for root.Parent() != nil {
 					root = root.Parent()
 				}
-				r.Check(root.Name() == "Close", R, p.FuncName(fn)+"/close("+e.Args[0]+")", p.InstrPos(e.In), "closed by Close", "the endpoint's close channel is closed outside its Close method: after this path (an error path of Listen/Dial/Accept) the object reports ErrClosed for ever and cannot be retried")
+				// (a method handed to once.Do inside Close is named Close$1, like the closure)
+				inClose := root.Name() == "Close" || strings.Contains(p.FuncName(fn), ").Close$")
+				r.Check(inClose, R, p.FuncName(fn)+"/close("+e.Args[0]+")", p.InstrPos(e.In), "closed by Close", "the endpoint's close channel is closed outside its Close method: after this path (an error path of Listen/Dial/Accept) the object reports ErrClosed for ever and cannot be retried")
 			}
 		}
 		r.Count("c12.endpoint_close_sites", n)
